@@ -1178,6 +1178,17 @@ fn run(
         w.add_child_only("gamma", "testbed", rs("AS65010", "", ""))
             .map_err(|e| format!("world setup: {e}"))?;
         w.quiesce();
+        // both leaves get an open issue (their parent forgets them, their
+        // next synchronisation is refused): the issues listing only shows
+        // CAs that have one, and must show it only to callers who may read
+        // that CA
+        w.remove_child("testbed", "alpha")
+            .map_err(|e| format!("world setup: {e}"))?;
+        w.remove_child("beta", "gamma")
+            .map_err(|e| format!("world setup: {e}"))?;
+        w.schedule_sync("alpha");
+        w.schedule_sync("gamma");
+        w.quiesce();
     }
     krill::verif::set_queue_clock_offset_ms(0);
     r.note("world_s", json!(t_world.elapsed().as_secs_f64()));
